@@ -261,10 +261,12 @@ func (w *Whisper) FetchFromArchive(arhiveID int, from, until, now Timestamp) (*T
 
 func (w *Whisper) findBestArchive(t, now Timestamp) int {
 	var archiveID int
-	diff := now.Sub(t)
+	// NOTE: compare in int64 since now - t does not fit in Duration (int32)
+	// when t is more than 2^31 - 1 seconds before now (ex. from = 0).
+	diff := int64(now) - int64(t)
 	for i, retention := range w.ArchiveInfoList() {
 		archiveID = i
-		if retention.MaxRetention() >= diff {
+		if int64(retention.MaxRetention()) >= diff {
 			break
 		}
 	}
